@@ -273,9 +273,17 @@ def run_case(case):
             cmap = {}
             for en, val in enums.items():
                 cmap[norm(en[len(prefix):]) if en.startswith(prefix) else norm(en)] = (en, val)
-            for name in names:
+            # every option is set on a fresh simulation AND after every other option of the same family (a setter that skips the write for
+            # the zero-valued enumerator is invisible on a fresh simulation, whose C member is already 0)
+            for name, prev in [(n_, None) for n_ in names] + [(n_, p_) for n_ in names for p_ in names if p_ != n_]:
                 sim = rebound.Simulation()
                 counters['options_set'] += 1
+                if prev is not None:
+                    counters['options_set_after_another_option'] = counters.get('options_set_after_another_option', 0) + 1
+                    try:
+                        setter(sim, prev)
+                    except Exception:
+                        continue
                 try:
                     setter(sim, name)
                 except Exception as e:
@@ -287,12 +295,14 @@ def run_case(case):
                     viol.append(dict(mech='option:no-c-enumerator:%s=%s' % (path, name), msg='no C enumerator matches python name %r (have %r)' % (name, sorted(cmap))))
                     continue
                 en, val = cmap[key]
+                after_ = '' if prev is None else ' (after %r)' % prev
                 if got != (val & 0xffffffff):
-                    viol.append(dict(mech='option:wrong-c-value:%s=%s' % (path, name), msg='python %r wrote %d at the C offset; C enumerator %s = %d' % (name, got, en, val)))
+                    viol.append(dict(mech='option:wrong-c-value:%s=%s%s' % (path, name, ':after-another-option' if prev else ''), msg='python %r%s wrote %d at the C offset; C enumerator %s = %d' % (name, after_, got, en, val)))
                 back = getter(sim)
                 if back != name:
-                    viol.append(dict(mech='option:readback:%s=%s' % (path, name), msg='set %r, read back %r' % (name, back)))
-                cells.append(['opt', path, name])
+                    viol.append(dict(mech='option:readback:%s=%s%s' % (path, name, ':after-another-option' if prev else ''), msg='set %r%s, read back %r' % (name, after_, back)))
+                if prev is None:
+                    cells.append(['opt', path, name])
 
         from rebound.simulation import INTEGRATORS, BOUNDARIES, GRAVITIES, COLLISIONS
         from rebound.integrators.whfast import WHFAST_KERNELS, WHFAST_COORDINATES
@@ -314,16 +324,19 @@ def run_case(case):
                      "whckm": ('REB_INTEGRATOR_WHFAST', 17, 'MODIFIEDKICK'), "whckc": ('REB_INTEGRATOR_WHFAST', 17, 'COMPOSITION')}
         ienum = simfields['integrator']['enumerators']
         kenum = dict((g['fname'], g) for g in simfields['ri_whfast']['fields'])['kernel']['enumerators']
-        for sc, (ci, corr, kern) in shortcuts.items():
+        for sc, (ci, corr, kern), prev in [(k_, v_, None) for k_, v_ in shortcuts.items()] + [(k_, v_, p_) for k_, v_ in shortcuts.items() for p_ in shortcuts if p_ != k_]:
             sim = rebound.Simulation()
             counters['options_set'] += 1
+            if prev is not None:
+                sim.integrator = prev
             sim.integrator = sc
             gi, _ = read_c(sim, 'integrator')
             gc, _ = read_c(sim, 'ri_whfast.corrector')
             gk, _ = read_c(sim, 'ri_whfast.kernel')
             if (gi, gc, gk) != (ienum[ci], corr, kenum['REB_WHFAST_KERNEL_' + kern]):
-                viol.append(dict(mech='option:shortcut:%s' % sc, msg='integrator=%r wrote (integrator,corrector,kernel)=(%d,%d,%d)' % (sc, gi, gc, gk)))
-            cells.append(['opt', 'shortcut', sc])
+                viol.append(dict(mech='option:shortcut:%s%s' % (sc, ':after-another-shortcut' if prev else ''), msg='integrator=%r%s wrote (integrator,corrector,kernel)=(%d,%d,%d)' % (sc, (' after %r' % prev) if prev else '', gi, gc, gk)))
+            if prev is None:
+                cells.append(['opt', 'shortcut', sc])
         senum = dict((g['fname'], g) for g in simfields['ri_saba']['fields'])['type']['enumerators']
         for en, val in senum.items():
             label = en[len('REB_SABA_'):]
